@@ -370,7 +370,7 @@ def command_cases(draw):
 def plan(tier: str) -> list[dict]:
     if tier == "quick":
         return [{"mode": "machine", "examples": 120, "steps": 8, "cost": 4} for _ in range(4)] + [{"mode": "command", "examples": 3, "cost": 6} for _ in range(3)]
-    return [{"mode": "machine", "examples": 500, "steps": 12, "cost": 10} for _ in range(12)] + [{"mode": "command", "examples": 8, "cost": 12} for _ in range(4)]
+    return [{"mode": "machine", "examples": 2000, "steps": 12, "cost": 10} for _ in range(11)] + [{"mode": "command", "examples": 25, "cost": 12} for _ in range(5)]
 
 
 def run_shard(spec: dict, ctx: Ctx) -> None:
